@@ -13,6 +13,10 @@ analysis on both sides; every JSON document that was emitted is parsed and valid
           (csv, gz on/off) and to_sql/read_sql (sqlite, gz on/off), auto_gamma on/off
   pickle  any of the above structures through dump_object/load_object, Obs.dump(datatype='pickle'),
           Corr.dump(datatype='pickle'): everything bit-identical, including a previous error analysis
+The structures of one case pick their layout from 1-2 independent layouts plus (two thirds of the cases) a sibling layout =
+the same replicas with equally many but other configurations (other start, other stride, irregular sub-sample), so that one
+document holds structures on different parts of the same Monte-Carlo history; every structure must come back on its own
+configuration lists (class labels doc:*).
 
 Recorded findings (known/F-C11-n.json; the input class is kept out of the generators only while findings.is_open(id),
 every replaced draw is labelled 'excluded:<id>' in the class histogram):
@@ -43,8 +47,14 @@ RULE = ('Hypothesis-generated structures (single Obs, list, ndarray of 1-3 dimen
         'irregular configuration lists (as range, list or array) and 0-2 covariance inputs of dimension 1-3 (also '
         'covariance-only observables); data magnitudes 1e-8..1e8 (uniform, mixed per chain, mean >> spread); tags of every '
         'JSON type per observable; reweighted flag both; transports and their options as listed per sub-property. '
+        'A case draws 1-2 independent layouts and in two thirds of the cases a sibling of one of them: the same replica names '
+        'with equally many but other configurations per replica (shifted with overlap, right behind the first part, other '
+        'stride, irregular sub-sample of equal length), so that the structures of one document / dictionary / data-frame cell '
+        'live on different parts of the same replica (labels doc:same_replica_equal_length_other_configs, doc:parts_*: about a '
+        'third of the multi-structure documents of json and frame, nearly half of the dictionaries). '
         'Non-trivial: the case contains >= 2 observables and (>= 2 ensembles or an irregular configuration list or a '
-        'covariance input or an undefined Corr slice); distinct = distinct spec hash.')
+        'covariance input or an undefined Corr slice or two structures of one document on the same replica with equally many '
+        'but different configurations); distinct = distinct spec hash.')
 ASSUMPTIONS = [
     'fluctuations compared with absolute tolerance 1e-14 * (largest |raw sample| of the ensemble + |replica mean - value|): '
     'the format stores fluctuation + (replica mean - value) and the reader subtracts the column average, i.e. three roundings at '
@@ -189,10 +199,12 @@ def corr_tag(draw, fmt=True):
 
 
 @st.composite
-def structure(draw, lays, kinds=('obs', 'list', 'array', 'corr'), small=False, fmt=True):
-    """fmt: the structure goes through the json format (open findings of the format are excluded), False for pickle"""
+def structure(draw, lays, kinds=('obs', 'list', 'array', 'corr'), small=False, fmt=True, li=None):
+    """fmt: the structure goes through the json format (open findings of the format are excluded), False for pickle;
+    li: index of the layout (None = drawn)"""
     t = draw(st.sampled_from(list(kinds)))
-    li = draw(st.integers(0, len(lays) - 1))
+    if li is None:
+        li = draw(st.integers(0, len(lays) - 1))
     lay = lays[li]
     node = {'t': t, 'lay': li, 'rw': draw(st.sampled_from([False, False, True])), 'gm': draw(st.sampled_from([False, False, True]))}
     if t == 'obs':
@@ -235,7 +247,7 @@ def analysable(lay):
     return all(all(g % min(v) == 0 for g in v) for v in gaps.values())
 
 
-SIBLING_HOWS = ['shift', 'shift', 'behind', 'stride', 'irregular', 'irregular', 'same']
+SIBLING_HOWS = ['shift', 'shift', 'behind', 'stride', 'stride', 'irregular', 'irregular', 'same']
 
 
 @st.composite
@@ -281,15 +293,26 @@ def sibling_layout(draw, base):
 
 @st.composite
 def _layouts(draw, tier, nmax=2):
-    """1..nmax independent layouts; in half of the cases one more layout that is a sibling of one of them (same replicas, equally
+    """1..nmax independent layouts; in two thirds of the cases one more layout that is a sibling of one of them (same replicas, equally
     many but other configurations), so that the structures of one document / dictionary / cell can live on different parts of
     the same replica."""
     lays = draw(st.lists(layout(tier), min_size=1, max_size=nmax))
     with_mc = [i for i, la in enumerate(lays) if la['chains']]
-    if with_mc and draw(st.booleans()):
+    if with_mc and draw(st.integers(0, 2)) > 0:
         sib = draw(sibling_layout(lays[draw(st.sampled_from(with_mc))]))
         lays.insert(draw(st.integers(0, len(lays))), sib)
     return lays
+
+
+def sibling_pair(lays):
+    """indices (sibling, layout it was derived from) or None"""
+    for i, la in enumerate(lays):
+        if la.get('sibling'):
+            sig = [(c['name'], len(c['idl'])) for c in la['chains']]
+            for j, lb in enumerate(lays):
+                if j != i and [(c['name'], len(c['idl'])) for c in lb['chains']] == sig:
+                    return [i, j]
+    return None
 
 
 @st.composite
@@ -307,7 +330,13 @@ def json_case(draw, tier):
         tr['path'] = draw(st.booleans())
     else:
         n = draw(st.sampled_from([1, 1, 2, 3, 4]))
-        structs = [draw(structure(lays, small=n > 2)) for _ in range(n)]
+        fixed = [None] * n
+        pair = sibling_pair(lays)
+        if n > 1 and pair and draw(st.booleans()):
+            # two structures of the document on the two parts of the same replicas, in either order, at any two positions
+            pos = draw(st.lists(st.integers(0, n - 1), min_size=2, max_size=2, unique=True))
+            fixed[pos[0]], fixed[pos[1]] = pair
+        structs = [draw(structure(lays, small=n > 2, li=fixed[k])) for k in range(n)]
         tr['bare'] = n == 1 and structs[0]['t'] != 'list' and draw(st.booleans())   # pass the structure itself, not [structure]
         if how == 'file':
             tr['gz'] = draw(st.booleans())
